@@ -310,7 +310,8 @@ C12_Fail(in, o) == { c \in C12_Conj : ~C12_Holds(c, in, o) }
 (***************************************************************************)
 (* C18  Foreign attributes stay where the user put them.                   *)
 (*  in : [place \in {"fn", "param", "modfn", "implfn", "traitmethod"},     *)
-(*        kind \in {"doc", "lint", "cfgon", "cfgoff", "tool", "inert"}]    *)
+(*        kind \in {"doc", "lint", "cfgon", "cfgoff", "tool", "inert",     *)
+(*        "cfgattr", "cfgonoff" (stacked cfgs: enabled, then disabled)}]    *)
 (*  o  : counts of the marker attribute in the expansion: on the user's    *)
 (*       own item (orig), on generated traits / impls (gen_items), on      *)
 (*       generated trait methods (gen_trait_methods), on the methods of    *)
@@ -323,12 +324,12 @@ C18_Holds(c, in, o) ==
   CASE c = "stays-on-original" -> o.expanded => o.orig = 1
     [] c = "not-copied-to-generated-items" -> o.expanded => o.gen_items = 0
     \* a cfg on a module / impl-block function may (must, when it is off) also guard the generated method
-    [] c = "not-copied-to-generated-methods" -> o.expanded /\ in.place \in {"fn", "param", "modfn", "implfn"} /\ ~(in.kind \in {"cfgon", "cfgoff"} /\ in.place \in {"modfn", "implfn"})
+    [] c = "not-copied-to-generated-methods" -> o.expanded /\ in.place \in {"fn", "param", "modfn", "implfn"} /\ ~(in.kind \in {"cfgon", "cfgoff", "cfgonoff"} /\ in.place \in {"modfn", "implfn"})
                                                  => o.gen_trait_methods = 0 /\ o.gen_impl_methods = 0
     [] c = "param-attrs-stripped" -> o.expanded /\ in.place = "param" => o.gen_params = 0
     [] c = "trait-method-attrs-mirrored" -> o.expanded /\ in.place = "traitmethod" => o.gen_impl_methods >= 1
-    [] c = "no-dangling-method" -> in.kind = "cfgoff" /\ in.place \in {"modfn", "implfn", "traitmethod"} => o.compiled
-    [] c = "compiles" -> in.kind # "cfgoff" => o.compiled
+    [] c = "no-dangling-method" -> in.kind \in {"cfgoff", "cfgonoff"} /\ in.place \in {"modfn", "implfn", "traitmethod"} => o.compiled
+    [] c = "compiles" -> in.kind \notin {"cfgoff", "cfgonoff"} => o.compiled
 C18_Fail(in, o) == { c \in C18_Conj : ~C18_Holds(c, in, o) }
 
 (***************************************************************************)
